@@ -72,7 +72,7 @@ def mailbox(F, w):
 
 
 def draw_block(w):
-    d = w.calls_to(lambda c: path_ends(c["path"], "Chain::expanded_draw"))
+    d = w.calls_to(lambda c: C10.is_draw_call(w.facts, c))
     return d[0][0] if len(d) == 1 else None
 
 
